@@ -7,5 +7,5 @@ if ! git apply --check "$patch" 2>/dev/null; then echo "PATCH DOES NOT APPLY: $p
 git apply "$patch"
 trap 'cd /repo && git checkout -- . ' EXIT
 for id in "$@"; do
-  ( cd /verif && ./check "$id" 2>&1 | grep -v "^WARNING conda" | head -12 ; echo "  -> exit ${PIPESTATUS[0]}" )
+  ( cd /verif && ./check "$id" 2>&1 | grep -v "^WARNING conda" | head -40 ; echo "  -> exit ${PIPESTATUS[0]}" )
 done
